@@ -678,6 +678,11 @@ class Run(object):
         else:
             # explicit method name given
             if el is None:
+                if not callable(run):
+                    raise exceptions.LenaTypeError(
+                        "run must be callable if the element is None, "
+                        "{} given".format(run)
+                    )
                 self.run = run
             # may raise if run is not a string
             elif callable(getattr(el, run, None)):
